@@ -26,6 +26,11 @@ CLAIMED = {
             "Generated-input search: box layouts (all size forms, jxlc/jxlp splits, raw and brob aux boxes, ten ill-formed constructions) and chunkings are generated; the parser's event stream must equal an independently written model and ill-formed layouts must be rejected for every feed pattern. Exploration is the right level: the property quantifies over unbounded layouts/chunkings and the oracle is exact.",
             "Trusted: the model of the container grammar in jxlref::container (written from ISO/IEC 18181-2), stored-block Brotli writer. brob decompression of compressed meta-blocks is delegated to brotli-decompressor.",
             "DESIGN.md §4 C10"),
+    "C11": ("exploration",
+            "metamorphic PBT: generated valid files x cut positions (every byte for small files) x generated loading-render attempts; need-more-data classification + bit-identical final result",
+            "Generated-input search over valid files and prefixes: at every cut the incremental API may only say 'need more data' (never an error), a loading-frame render is either a full-size image or a need-more-data error, and completing the stream gives exactly the uninterrupted result.",
+            "Trusted: error classification walks the std::error::Error source chain for IncompleteFrame / unexpected-EOF; corpus = jxlref single-frame Modular files incl. multi-pass and squeezed (progressive) shapes; VarDCT/LF-frame shapes join when their writer lands.",
+            "DESIGN.md §4 C11"),
     "C12": ("exploration",
             "differential PBT: generated depth<=12 Modular streams that truthfully declare 16-bit buffers, decoded with narrow (SIMD) vs forced-wide (scalar) buffers, and against the original",
             "Generated-input search over Modular streams whose every stored and intermediate value fits 16 bits by construction; narrow-buffer decode (AVX2 kernels on this host) must equal forced-wide decode sample for sample, and both must equal the original image.",
@@ -36,6 +41,16 @@ CLAIMED = {
             "Generated-input search over the conditional layout of ImageHeader / FrameHeader / TOC: every field combination the generator can express is written by an independent writer (any legal U32 selector, any U64 form incl. 64-bit tail, arbitrary finite F16 patterns, all_default/div8/ratio shortcuts chosen at random) and the decoder must report exactly the written values and stop at exactly the written bit.",
             "Trusted: jxlref::headers (my reading of ISO/IEC 18181-1 Annex A/C); two spec/libjxl ambiguities are excluded by construction and listed in the evidence assumptions.",
             "DESIGN.md §4 C14"),
+    "C15": ("exploration",
+            "metamorphic PBT: generated images x 8 orientations x crops; interleaved / planar / f32,u16,u8 streams compared with the unoriented grids moved by an independently written EXIF coordinate map",
+            "Generated-input search: all output buffer kinds must describe the same picture, with the reported oriented dimensions, the documented channel order, correct integer rounding, chunked stream writes equal to one-shot writes, and crop regions equal to the rectangle of the full oriented picture.",
+            "Trusted: my transcription of the EXIF orientation semantics (orient_map) and the defined sample-to-float conversion. CMYK/black ordering and spot-colour mixing are not generated (stated in evidence).",
+            "DESIGN.md §4 C15"),
+    "C18": ("exploration",
+            "round-trip PBT: independent ICC-stream *encoder* with generated command segmentation (header prediction, tag shortcuts, raw/shuffle/predicted runs) over generated profiles -> read_icc/decode_icc and JxlImage::original_icc byte equality; 18 constructed negative cases",
+            "Generated-input search over profiles (structured and noise, 0..300 KiB) and over encodings of each profile; the decoder must return the profile byte for byte and stop at the written bit; inconsistent encodings (by construction, confirmed by a reference interpreter) must be rejected.",
+            "Trusted: jxlref::icc (encoder + reference interpreter from the format definition). Ragged 4-way shuffles (n mod 4 in {1,2}) are excluded: the decoder follows the 'balanced rows' reading while libjxl's code uses ceil(n/4)-sized rows; observed, not asserted (DESIGN §7).",
+            "DESIGN.md §4 C18"),
 }
 
 PENDING_REASON = "not claimed yet: machinery for this property is still being built in this work session (see DESIGN.md §8 build order); the technique applies"
